@@ -95,15 +95,25 @@ pub struct HistOpts {
   pub max_held: usize,
   pub raw_percent: u32,
   pub release_all_percent: u32,
+  pub marathon_taps: usize, // > 0: one long typing run of up to that many chord taps
 }
 
 // `Press` picks the i-th not-held key, `Release` the i-th held key, `Raw` any key in any
 // direction (duplicate presses, releases of keys never pressed).
 pub fn gen_history(src: &mut Src, alphabet: &[KeyCode], o: &HistOpts) -> Vec<Step> {
+  gen_history_crowd(src, alphabet, o, &[])
+}
+
+// `crowd` keys are pressed first and count on top of the bound on held keys
+pub fn gen_history_crowd(src: &mut Src, alphabet: &[KeyCode], o: &HistOpts, crowd: &[KeyCode]) -> Vec<Step> {
   let n = src.below(o.max_events + 1);
   let mut held: Vec<KeyCode> = Vec::new();
-  let mut out = Vec::with_capacity(n + 6);
-  let max_held = o.max_held.max(1);
+  let mut out = Vec::with_capacity(n + 6 + crowd.len());
+  for k in crowd {
+    held.push(*k);
+    out.push(Step::Ev(Event::Pressed(*k)));
+  }
+  let max_held = o.max_held.max(1) + crowd.len();
   let w_press = 50u32;
   let w_release = 100 - w_press - o.raw_percent - o.release_all_percent;
   for _ in 0..n {
@@ -166,4 +176,107 @@ pub fn gen_history(src: &mut Src, alphabet: &[KeyCode], o: &HistOpts) -> Vec<Ste
     }
   }
   out
+}
+
+// "Typing": a history made of taps of the layout's own chords - press the trigger keys of a
+// mapping in order, release them (final key first, final key only, or in a drawn order),
+// sometimes keeping modifiers held across taps (rolled chords), sometimes tapping a plain key.
+// Long runs of chord taps reach states that uniformly random events practically never reach
+// (e.g. many distinct absorbed keys in a row).
+pub fn gen_typing(src: &mut Src, layout: &Layout, alphabet: &[KeyCode], max_taps: usize, crowd: &[KeyCode]) -> Vec<Step> {
+  let mut out: Vec<Step> = Vec::new();
+  let mut held: Vec<KeyCode> = Vec::new();
+  for k in crowd {
+    held.push(*k);
+    out.push(Step::Ev(Event::Pressed(*k)));
+  }
+  let base = held.len();
+  // wide layouts get long runs that stay on one final key: that is what accumulates per-key
+  // memory (many distinct absorbed keys, long candidate lists)
+  let wide = layout.mappings.len() >= 9;
+  let taps = src.below(if wide { max_taps.max(40) } else { max_taps } + 1);
+  let mut sticky_final: Option<KeyCode> = if wide && src.chance(60) { Some(*src.pick(&layout.mappings).from.last().unwrap()) } else { None };
+  for _ in 0..taps {
+    if layout.mappings.is_empty() || src.chance(if wide { 5 } else { 15 }) {
+      let k = src.pick(alphabet);
+      if !held.contains(&k) {
+        out.push(Step::Ev(Event::Pressed(k)));
+        out.push(Step::Ev(Event::Released(k)));
+      } else {
+        held.retain(|x| *x != k);
+        out.push(Step::Ev(Event::Released(k)));
+      }
+      continue;
+    }
+    if src.chance(if wide { 3 } else { 10 }) {
+      sticky_final = if sticky_final.is_some() { None } else { Some(*src.pick(&layout.mappings).from.last().unwrap()) };
+    }
+    let cands: Vec<&crate::keys::Mapping> = match sticky_final {
+      Some(f) => layout.mappings.iter().filter(|m| *m.from.last().unwrap() == f).collect(),
+      None => layout.mappings.iter().collect(),
+    };
+    let m = cands[src.below(cands.len())];
+    let fk = *m.from.last().unwrap();
+    if held.contains(&fk) {
+      held.retain(|x| *x != fk);
+      out.push(Step::Ev(Event::Released(fk)));
+    }
+    for t in &m.from {
+      if !held.contains(t) {
+        held.push(*t);
+        out.push(Step::Ev(Event::Pressed(*t)));
+      }
+    }
+    match src.weighted(&[50, 25, 25]) {
+      0 => {
+        for t in m.from.iter().rev() {
+          if held.contains(t) {
+            held.retain(|x| x != t);
+            out.push(Step::Ev(Event::Released(*t)));
+          }
+        }
+      }
+      1 => {
+        held.retain(|x| *x != fk);
+        out.push(Step::Ev(Event::Released(fk)));
+      }
+      _ => {
+        let mut order: Vec<KeyCode> = m.from.clone();
+        src.shuffle(&mut order);
+        for t in order {
+          if held.contains(&t) && src.chance(80) {
+            held.retain(|x| *x != t);
+            out.push(Step::Ev(Event::Released(t)));
+          }
+        }
+      }
+    }
+    if held.len() > base + 6 {
+      let extra: Vec<KeyCode> = held[base..].to_vec();
+      for k in extra {
+        held.retain(|x| *x != k);
+        out.push(Step::Ev(Event::Released(k)));
+      }
+    }
+  }
+  if src.chance(60) {
+    let mut order = held.clone();
+    src.shuffle(&mut order);
+    for k in order {
+      out.push(Step::Ev(Event::Released(k)));
+    }
+  }
+  out
+}
+
+// random events (70 %) or typing (30 %)
+pub fn gen_history_mixed(src: &mut Src, layout: &Layout, alphabet: &[KeyCode], o: &HistOpts, crowd: &[KeyCode]) -> Vec<Step> {
+  if o.marathon_taps > 0 {
+    return gen_typing(src, layout, alphabet, o.marathon_taps, crowd);
+  }
+  if src.chance(30) {
+    gen_typing(src, layout, alphabet, (o.max_events / 3).max(4), crowd)
+  } else {
+    gen_history_crowd(src, alphabet, o, crowd)
+  }
 }
